@@ -205,6 +205,43 @@ def subst_path(p, env):
     return _ROOT_RE.sub(lambda m: env.get(m.group(0), m.group(0)), p)
 
 
+def bool_locals(f):
+    """bool locals defined exactly once by their initialiser: var -> (initialiser path, event computing it, negated)"""
+    c = f.get('_bool_locals')
+    if c is not None:
+        return c
+    out = {}
+    written = collections.Counter()
+    for e in f.events():
+        if e.k == 'write' and re.fullmatch(r'local:\w+', e.get('path') or ''):
+            written[e['path'][6:]] += 1
+    escaped = set()
+    for e in f.events():
+        for a in (e.get('args') or []):
+            m = re.fullmatch(r'&?\(?local:(\w+)\)?', a.get('path') or '')
+            if m and '&' in (a.get('type') or '') + (a.get('path') or ''):
+                escaped.add(m.group(1))
+            elif m and e.k in ('call', 'construct') and (a.get('type') or '') in ('_Bool', 'bool') and not a.get('ev'):
+                escaped.add(m.group(1))       # passed as an lvalue (no load event): may bind to a reference parameter
+        if e.k == 'lambda':
+            for c in e.get('captures', []):
+                if c.get('byref') and c.get('name'):
+                    escaped.add(c['name'])
+    for e in f.events():
+        if e.k == 'decl' and (e.get('type') or '').replace('const ', '') in ('_Bool', 'bool') and e.get('init') and not written[e['var']] \
+                and e['var'] not in escaped and e.get('const') is None and e['init'] not in ('true', 'false'):
+            ini = e['init']; neg = False
+            while ini.startswith('!(') and ini.endswith(')'):
+                ini = ini[2:-1]; neg = not neg
+            iev = e.get('init_ev')
+            ie = f.ev(iev) if iev is not None else None
+            if ie is not None and ie.k == 'use':
+                iev = None
+            out[e['var']] = (ini, iev, neg)
+    f['_bool_locals'] = out
+    return out
+
+
 def local_env(f):
     """copy-propagation for locals that are references / pointers / call results, defined once"""
     c = f.get('_lenv')
@@ -297,6 +334,7 @@ class Tracer:
         blocks = f['_blocks']
         frame = (f['key'], full)
         lim = self.limit
+        bl = bool_locals(f)
 
         def walk(bid, cnt, acc):
             if len(out) >= lim:
@@ -329,9 +367,9 @@ class Tracer:
                     else:
                         for sub in exp:
                             if sub and sub[-1].k == 'abort':
-                                new.append(s + [Item(k='enter', ev=ee, depth=d)] + sub)
+                                new.append(s + [Item(ee, expanded=True), Item(k='enter', ev=ee, depth=d)] + sub)
                             else:
-                                new.append(s + [Item(k='enter', ev=ee, depth=d)] + sub + [Item(k='leave', ev=ee, ret=self.retconst(sub), depth=d)])
+                                new.append(s + [Item(ee, expanded=True), Item(k='enter', ev=ee, depth=d)] + sub + [Item(k='leave', ev=ee, ret=self.retconst(sub), depth=d)])
                 seqs = new
                 if len(seqs) > lim:
                     self.truncated = True; seqs = seqs[:lim]
@@ -361,9 +399,20 @@ class Tracer:
                         val = (i == 0)
                         if cond.get('neg'):
                             val = not val
-                        br = Item(k='branch', cond_ev=cond.get('ev'), val=val, path=subst_path(cond.get('path'), full), opath=cond.get('path'),
+                        cpath = cond.get('path'); cev = cond.get('ev')
+                        # a branch on a bool local that is defined once is a branch on its initialiser (bool ok = cas(...); if (ok) ...)
+                        for _ in range(3):
+                            m_ = re.fullmatch(r'local:(\w+)', cpath or '')
+                            if not m_ or m_.group(1) not in bl:
+                                break
+                            ipath, iev, ineg = bl[m_.group(1)]
+                            cpath = ipath; cev = iev if iev is not None else cev
+                            if ineg:
+                                val = not val
+                        br = Item(k='branch', cond_ev=cev, val=val, path=subst_path(cpath, full), opath=cond.get('path'),
                                   fn=f['key'], fname=f['nname'], depth=d, term=cond.get('term'), loc=cond.get('loc'), block=bid)
-                        if sq and sq[-1].k == 'leave' and sq[-1].ev.id == cond.get('ev') and sq[-1].ret is not None and bool(sq[-1].ret) != val:
+                        lastleave = next((x for x in reversed(sq) if x.k == 'leave' and x.get('depth') == d and x.ev.id == cev), None) if cev is not None else None
+                        if lastleave is not None and lastleave.ret is not None and bool(lastleave.ret) != val and not any(x.k in ('enter',) and x.get('depth') == d and x.ev.id == cev for x in sq[sq.index(lastleave) + 1:]):
                             continue      # infeasible: the inlined callee returned a constant
                         item = [br]
                     elif cond is not None and len(succ) > 2:
@@ -461,14 +510,12 @@ def live(tr):
 
 
 def evs(tr, maxdepth=99):
-    """iterate the primitive events of a trace; an expanded call is yielded once (its call event)"""
+    """iterate the primitive events of a trace. An expanded call appears once as its own call event (flag `expanded`),
+    followed by the markers enter/leave around the callee's events; the markers are skipped"""
     for it in tr:
-        if it.k == 'enter':
-            if it.ev.get('depth', 0) <= maxdepth:
-                yield it.ev
-        elif it.k in ('leave',):
+        if it.k in ('enter', 'leave'):
             continue
-        elif it.get('depth', 0) <= maxdepth:
+        if it.get('depth', 0) <= maxdepth:
             yield it
 
 
